@@ -261,7 +261,9 @@ class ReadWriteMultipleRegistersRequest(ModbusRequest):
         self.write_address, self.write_count, \
         self.write_byte_count = struct.unpack('>HHHHB', data[:9])
         self.write_registers  = []
-        for i in range(9, self.write_byte_count + 9, 2):
+        # decode the registers that are really there; a quantity or byte
+        # count that contradicts the data is rejected in execute()
+        for i in range(9, min(self.write_byte_count + 9, len(data) - 1), 2):
             register = struct.unpack('>H', data[i:i + 2])[0]
             self.write_registers.append(register)
 
@@ -276,6 +278,8 @@ class ReadWriteMultipleRegistersRequest(ModbusRequest):
         if not (1 <= self.write_count <= 0x079):
             return self.doException(merror.IllegalValue)
         if (self.write_byte_count != self.write_count * 2):
+            return self.doException(merror.IllegalValue)
+        if len(self.write_registers) != self.write_count:
             return self.doException(merror.IllegalValue)
         if not context.validate(self.function_code, self.write_address,
                                 self.write_count):
